@@ -25,7 +25,9 @@ Inductive term :=
 | TI (s : str)            (* IRI *)
 | TInt (z : Z)            (* xsd:integer *)
 | TDec (m : Z) (k : N)    (* xsd:decimal *)
-| TStr (s : str).         (* plain literal *)
+| TStr (s : str)          (* plain literal *)
+| TLang (lang s : str)    (* language-tagged string (tag in lower case, not empty) *)
+| TBool (b : bool).       (* xsd:boolean *)
 
 Definition str_eqb : str -> str -> bool := list_eqb N.eqb.
 
@@ -34,6 +36,8 @@ Definition term_eqb (a b : term) : bool :=
   | TB x, TB y | TI x, TI y | TStr x, TStr y => str_eqb x y
   | TInt x, TInt y => Z.eqb x y
   | TDec m k, TDec m' k' => Z.eqb m m' && N.eqb k k'
+  | TLang l x, TLang l' y => str_eqb l l' && str_eqb x y
+  | TBool x, TBool y => Bool.eqb x y
   | _, _ => false
   end.
 
@@ -70,22 +74,43 @@ Definition num_of (t : term) : option (Z * N) :=
 Definition num_lt (p q : Z * N) : bool := (fst p * pow10 (snd q) <? fst q * pow10 (snd p))%Z.
 Definition num_eqv (p q : Z * N) : bool := (fst p * pow10 (snd q) =? fst q * pow10 (snd p))%Z.
 
+(* Literal.__gt__: numeric literals by value; otherwise by datatype IRI (plain and language-tagged
+   strings count as xsd:string): ...#boolean < ...#decimal < ...#integer < ...#string; inside
+   xsd:string first by language tag (none first), then by the string; booleans false < true *)
 Definition rank (a : option term) : N :=
   match a with
   | None => 0
   | Some (TB _) => 1
   | Some (TI _) => 2
-  | Some (TInt _) | Some (TDec _ _) => 3
-  | Some (TStr _) => 4
+  | Some (TBool _) => 3
+  | Some (TInt _) | Some (TDec _ _) => 4
+  | Some (TStr _) | Some (TLang _ _) => 5
+  end.
+
+(* (language tag, string) of a string literal; no tag = the empty tag, which is the least *)
+Definition skey5 (t : term) : str * str :=
+  match t with TLang l s => (l, s) | TStr s => ([], s) | _ => ([], []) end.
+
+Definition lex2 (p q : str * str) : bool :=
+  if str_lt (fst p) (fst q) then true
+  else if str_lt (fst q) (fst p) then false
+  else str_lt (snd p) (snd q).
+
+Definition same_rank_lt (x y : term) : bool :=
+  match x, y with
+  | TB s, TB s' | TI s, TI s' => str_lt s s'
+  | TBool p, TBool q => negb p && q
+  | (TInt _ | TDec _ _), (TInt _ | TDec _ _) =>
+      match num_of x, num_of y with Some p, Some q => num_lt p q | _, _ => false end
+  | (TStr _ | TLang _ _), (TStr _ | TLang _ _) => lex2 (skey5 x) (skey5 y)
+  | _, _ => false
   end.
 
 Definition klt (a b : option term) : bool :=
   if N.ltb (rank a) (rank b) then true
   else if N.ltb (rank b) (rank a) then false
   else match a, b with
-       | Some (TB x), Some (TB y) | Some (TI x), Some (TI y) | Some (TStr x), Some (TStr y) => str_lt x y
-       | Some a', Some b' =>
-           match num_of a', num_of b' with Some p, Some q => num_lt p q | _, _ => false end
+       | Some x, Some y => same_rank_lt x y
        | _, _ => false
        end.
 
@@ -261,6 +286,9 @@ Definition term_str (t : term) : str :=
   | TB l => l | TI s => s | TStr s => s
   | TInt z => z_str z
   | TDec m k => dec_str m k
+  | TLang _ s => s
+  | TBool true => [116; 114; 117; 101]%N
+  | TBool false => [102; 97; 108; 115; 101]%N
   end.
 
 Fixpoint join (sep : str) (l : list str) : str :=
@@ -815,9 +843,23 @@ Definition spec_ok (c : case) (o : obs) : bool :=
 (* ------------------------------------------------------------------ *)
 (* well-formed cases and the regions of the known findings *)
 
+(* HEAD raises TypeError out of the query when SUM meets an xsd:boolean and another datatyped
+   literal in one group (type_promotion KeyError, see notes F-C08i): no SUM argument may take a
+   boolean value *)
+Definition is_bool (o : option term) : bool := match o with Some (TBool _) => true | _ => false end.
+Definition sum_args (c : case) : list texpr :=
+  flat_map (fun va => match a_kind (snd va), a_arg (snd va) with ASum, Some e => [e] | _, _ => [] end) (c_aggs c)
+  ++ match c_having c with
+     | Some (HAgg a _ _) => match a_kind a, a_arg a with ASum, Some e => [e] | _, _ => [] end
+     | _ => []
+     end.
+Definition sum_bool_free (c : case) : bool :=
+  forallb (fun e => negb (existsb is_bool (ovals e (c_input c)))) (sum_args c).
+
 Definition wf (c : case) : bool :=
   match c_group c with
   | None => match c_aggs c, c_having c with [], None => true | _, _ => false end
   | Some gv => nodupb N.eqb (gv ++ map fst (c_aggs c))
                && match c_having c with Some (HKey v _ _) => memb N.eqb v gv | _ => true end
+               && sum_bool_free c
   end.
